@@ -47,24 +47,25 @@ type Cfg struct {
 
 // Step is one environment choice.
 type Step struct {
-	Op   string `json:"op"`
-	G    int    `json:"g"`
-	P    int    `json:"p"`
-	I    int    `json:"i"`
-	D    int64  `json:"d"`
-	Dir  string `json:"dir"`
-	Act  string `json:"act"`
-	Svc  string `json:"svc"`
-	Ch   string `json:"ch"`   // own | other
-	Rel  int    `json:"rel"`  // sequence number relative to the live counter
-	Q    int    `json:"q"`    // net: 1 + sequence number (modulo Mod) the addressed datagram must carry; 0 = any
-	Qch  int    `json:"qch"`  // net: 1 + channel the addressed datagram must carry; 0 = any
-	Qst  int    `json:"qst"`  // net: 1 + status the addressed datagram must carry; 0 = any
-	Mod  int    `json:"mod"`  // modulus of Q (the specification counts modulo 4)
-	Base string `json:"base"` // "ctr": relative to the client's send counter instead of the last transmitted number
-	St   int    `json:"st"`
-	S    string `json:"s"`
-	N    int    `json:"n"`
+	Op    string `json:"op"`
+	G     int    `json:"g"`
+	P     int    `json:"p"`
+	I     int    `json:"i"`
+	D     int64  `json:"d"`
+	Dir   string `json:"dir"`
+	Act   string `json:"act"`
+	Svc   string `json:"svc"`
+	Ch    string `json:"ch"`    // own | other
+	Rel   int    `json:"rel"`   // sequence number relative to the live counter
+	Q     int    `json:"q"`     // net: 1 + sequence number (modulo Mod) the addressed datagram must carry; 0 = any
+	Qch   int    `json:"qch"`   // net: 1 + channel the addressed datagram must carry; 0 = any
+	Qst   int    `json:"qst"`   // net: 1 + status the addressed datagram must carry; 0 = any
+	Mod   int    `json:"mod"`   // modulus of Q (the specification counts modulo 4)
+	Exact bool   `json:"exact"` // net: deliver exactly the addressed datagram even in TCP mode (the random walks keep stream order)
+	Base  string `json:"base"`  // "ctr": relative to the client's send counter instead of the last transmitted number
+	St    int    `json:"st"`
+	S     string `json:"s"`
+	N     int    `json:"n"`
 }
 
 // Run is one schedule.
@@ -360,7 +361,9 @@ func (w *World) Exec(st Step) {
 				skip("tcp-reliable")
 				return
 			}
-			i = 0
+			if !st.Exact { // (a behaviour generated from the specification names the datagram itself)
+				i = 0
+			}
 		}
 		switch st.Act {
 		case "lose":
